@@ -1,7 +1,9 @@
 (** The machine's numeric operators ([Machine.rs_binop], transcribed from the Rust integer
     methods used in machine.rs) agree with the specification's ([IntN]) — PARTIAL: proved for
     add, sub, mul, div_u, rem_u, shl, shr_u and the unsigned/equality comparisons; the other
-    operators are covered by the correspondence run only; rem_s is refuted at (MIN,-1). *)
+    operators are covered by the correspondence run only; rem_s is refuted at (MIN,-1).
+    Second part of the file: ALL operators ([rs_binop_agrees_all], [rs_unop32_agrees],
+    [rs_unop64_agrees], [rs_eqz_agrees], [rs_cvt_agrees]). *)
 From Coq Require Import ZArith Lia Bool List.
 From CB Require Import Common.IntN Common.IntNProofs Wasm.Syntax Wasm.Sem Wasm.Machine.
 Import ListNotations.
@@ -81,4 +83,236 @@ Lemma rs_relop_all t op x y : in_range (bits t) x -> in_range (bits t) y ->
 Proof.
   intros Hx Hy. destruct (rs_relop_eq_agrees t x y Hx Hy) as [E1 E2].
   destruct op; try reflexivity; assumption.
+Qed.
+
+
+(** ** All binary operators *)
+Lemma signed_eq0 n y : 0 < n -> in_range n y -> (signed n y = 0 <-> y = 0).
+Proof.
+  intros Hn [H0 H1]. unfold signed. pose proof (half_modulus_pos n Hn). destruct (Z.ltb_spec y (half_modulus n)); lia.
+Qed.
+
+Lemma quot_overflow_iff h sx sy : 1 <= h -> - h <= sx < h -> - h <= sy < h -> sy <> 0 ->
+  (Z.quot sx sy = h <-> sx = - h /\ sy = -1).
+Proof.
+  intros Hh Hx Hy Hne. split.
+  - intros Hq.
+    pose proof (Z.quot_rem' sx sy) as E. rewrite Hq in E.
+    pose proof (Z.rem_bound_abs sx sy Hne) as B.
+    assert (Rn : 0 <= sx -> 0 <= Z.rem sx sy) by (intros; apply Z.rem_nonneg; lia).
+    assert (Rp : sx <= 0 -> Z.rem sx sy <= 0) by (intros; apply Z.rem_nonpos; lia).
+    set (r := Z.rem sx sy) in *.
+    destruct (Z_le_gt_dec 1 sy) as [Hp|Hn].
+    + (* sy >= 1 *) exfalso. destruct (Z_le_gt_dec 0 sx).
+      * specialize (Rn ltac:(lia)). nia.
+      * specialize (Rp ltac:(lia)). assert (- sy < r) by lia. nia.
+    + assert (sy <= -1) by lia. destruct (Z.eq_dec sy (-1)) as [->|].
+      * split; [|reflexivity]. assert (r = 0) by lia. lia.
+      * exfalso. assert (sy <= -2) by lia. destruct (Z_le_gt_dec 0 sx).
+        -- specialize (Rn ltac:(lia)). assert (r < - sy) by lia. nia.
+        -- specialize (Rp ltac:(lia)). nia.
+  - intros [-> ->]. change (-1) with (- (1)). rewrite Z.quot_opp_opp by lia. apply Z.quot_1_r.
+Qed.
+
+Lemma log2_bound n a : 0 <= n -> 0 <= a -> (a < 2 ^ n <-> (a = 0 \/ Z.log2 a < n)).
+Proof.
+  intros Hn Ha. split.
+  - intros H. destruct (Z.eq_dec a 0); [left; auto|right]. apply Z.log2_lt_pow2; lia.
+  - intros [->|H]; [apply Z.pow_pos_nonneg; lia|].
+    destruct (Z.eq_dec a 0) as [->|]; [apply Z.pow_pos_nonneg; lia|]. apply Z.log2_lt_pow2; lia.
+Qed.
+
+Lemma land_range n a b : 0 <= n -> 0 <= a < 2 ^ n -> 0 <= b < 2 ^ n -> 0 <= Z.land a b < 2 ^ n.
+Proof.
+  intros Hn Ha Hb. assert (0 <= Z.land a b) by (apply Z.land_nonneg; lia). split; [auto|].
+  apply log2_bound; auto. destruct (Z.eq_dec (Z.land a b) 0); [left; auto|right].
+  pose proof (Z.log2_land a b ltac:(lia) ltac:(lia)).
+  assert (a <> 0) by (intros ->; rewrite Z.land_0_l in *; lia).
+  assert (Z.log2 a < n) by (apply Z.log2_lt_pow2; lia). lia.
+Qed.
+Lemma lor_range n a b : 0 <= n -> 0 <= a < 2 ^ n -> 0 <= b < 2 ^ n -> 0 <= Z.lor a b < 2 ^ n.
+Proof.
+  intros Hn Ha Hb. assert (0 <= Z.lor a b) by (apply Z.lor_nonneg; lia). split; [auto|].
+  apply log2_bound; auto. destruct (Z.eq_dec (Z.lor a b) 0) as [|Hnz]; [left; auto|right].
+  rewrite Z.log2_lor by lia.
+  assert (La : a = 0 \/ Z.log2 a < n) by (apply log2_bound; lia).
+  assert (Lb : b = 0 \/ Z.log2 b < n) by (apply log2_bound; lia).
+  pose proof (Z.log2_nonneg a). pose proof (Z.log2_nonneg b).
+  destruct La as [->|La], Lb as [->|Lb]; change (Z.log2 0) with 0 in *.
+  - exfalso. apply Hnz. reflexivity.
+  - lia.
+  - lia.
+  - lia.
+Qed.
+Lemma lxor_range n a b : 0 <= n -> 0 <= a < 2 ^ n -> 0 <= b < 2 ^ n -> 0 <= Z.lxor a b < 2 ^ n.
+Proof.
+  intros Hn Ha Hb. assert (0 <= Z.lxor a b) by (apply Z.lxor_nonneg; lia). split; [auto|].
+  apply log2_bound; auto. destruct (Z.eq_dec (Z.lxor a b) 0); [left; auto|right].
+  pose proof (Z.log2_lxor a b ltac:(lia) ltac:(lia)).
+  assert (La : a = 0 \/ Z.log2 a < n) by (apply log2_bound; lia).
+  assert (Lb : b = 0 \/ Z.log2 b < n) by (apply log2_bound; lia).
+  destruct La as [->|La], Lb as [->|Lb]; cbn [Z.log2] in *.
+  - rewrite Z.lxor_0_l in *. lia.
+  - rewrite Z.lxor_0_l in *. lia.
+  - rewrite Z.lxor_0_r in *. lia.
+  - lia.
+Qed.
+
+Lemma irotr_range n x k : 0 < n -> in_range n x -> in_range n (irotr n x k).
+Proof.
+  intros Hn Hx. assert (Hk : 0 <= k mod n < n) by (apply Z.mod_pos_bound; lia).
+  replace (irotr n x k) with (irotr n x (k mod n)) by (unfold irotr; rewrite Z.mod_mod by lia; reflexivity).
+  rewrite irotr_formula by auto. set (j := k mod n) in *.
+  destruct Hx as [H0 H1]. unfold in_range, modulus in *.
+  assert (Pj : 0 < 2 ^ j) by (apply Z.pow_pos_nonneg; lia).
+  assert (Pn : 0 < 2 ^ (n - j)) by (apply Z.pow_pos_nonneg; lia).
+  assert (En : 2 ^ n = 2 ^ j * 2 ^ (n - j)) by (rewrite <- Z.pow_add_r by lia; f_equal; lia).
+  pose proof (Z.mod_pos_bound x (2 ^ j) Pj). pose proof (Z.div_pos x (2 ^ j) H0 Pj).
+  assert (x / 2 ^ j < 2 ^ (n - j)) by (apply Z.div_lt_upper_bound; lia).
+  split; [nia|]. rewrite En. nia.
+Qed.
+
+Definition binop_eq_dec : forall a b : binop, {a = b} + {a <> b}.
+Proof. decide equality. Defined.
+
+Definition f3_operands (n x y : Z) : Prop := signed n x = - half_modulus n /\ signed n y = -1.
+
+Lemma rs_binop_agrees_all t op x y :
+  in_range (bits t) x -> in_range (bits t) y -> (op = RemS -> ~ f3_operands (bits t) x y) ->
+  match rs_binop (bits t) op (signed (bits t) x) (signed (bits t) y) x y with
+  | inr r => app_binop t op x y = Some (r mod 2 ^ bits t)
+  | inl _ => app_binop t op x y = None
+  end.
+Proof.
+  intros Hx Hy HF3.
+  destruct (in_dec binop_eq_dec op proved_binops) as [Hin|Hnin].
+  { apply rs_binop_agrees; auto. }
+  pose proof (bits_pos t) as Hn. set (n := bits t) in *.
+  assert (Hn0 : 0 <= n) by lia. pose proof (modulus_pos n Hn0) as HM.
+  pose proof (signed_range n x Hn Hx) as Rx. pose proof (signed_range n y Hn Hy) as Ry.
+  pose proof (half_modulus_pos n Hn) as Hh.
+  assert (Hmin : min_int n = - half_modulus n) by reflexivity.
+  assert (Hk : 0 <= y mod n < n) by (apply Z.mod_pos_bound; lia).
+  destruct op; try (exfalso; apply Hnin; cbn; tauto); cbn [rs_binop app_binop]; fold n.
+  - (* div_s *)
+    unfold idiv_s. destruct (Z.eqb_spec y 0) as [->|Hy0].
+    + assert (E : signed n 0 = 0) by (apply signed_eq0; auto; split; lia). rewrite E. reflexivity.
+    + assert (Hs : signed n y <> 0) by (intro E; apply Hy0; apply (signed_eq0 n y Hn Hy); exact E).
+      destruct (Z.eqb_spec (signed n y) 0); [contradiction|].
+      pose proof (quot_overflow_iff (half_modulus n) (signed n x) (signed n y) ltac:(lia) Rx Ry Hs) as Q.
+      rewrite Hmin.
+      destruct (Z.eqb_spec (signed n x) (- half_modulus n)) as [Ex|Ex];
+        destruct (Z.eqb_spec (signed n y) (-1)) as [Ey|Ey]; cbn [andb].
+      * destruct (Z.eqb_spec (Z.quot (signed n x) (signed n y)) (half_modulus n)); [reflexivity|tauto].
+      * destruct (Z.eqb_spec (Z.quot (signed n x) (signed n y)) (half_modulus n)); [tauto|reflexivity].
+      * destruct (Z.eqb_spec (Z.quot (signed n x) (signed n y)) (half_modulus n)); [tauto|reflexivity].
+      * destruct (Z.eqb_spec (Z.quot (signed n x) (signed n y)) (half_modulus n)); [tauto|reflexivity].
+  - (* rem_s *)
+    unfold irem_s. destruct (Z.eqb_spec y 0) as [->|Hy0].
+    + assert (E : signed n 0 = 0) by (apply signed_eq0; auto; split; lia). rewrite E. reflexivity.
+    + assert (Hs : signed n y <> 0) by (intro E; apply Hy0; apply (signed_eq0 n y Hn Hy); exact E).
+      destruct (Z.eqb_spec (signed n y) 0); [contradiction|].
+      rewrite Hmin.
+      destruct (Z.eqb_spec (signed n x) (- half_modulus n)) as [Ex|Ex];
+        destruct (Z.eqb_spec (signed n y) (-1)) as [Ey|Ey]; cbn [andb]; try reflexivity.
+      exfalso. apply (HF3 eq_refl). split; assumption.
+  - (* and *) unfold iand. f_equal. symmetry. apply Z.mod_small. apply land_range; auto.
+  - (* or *) unfold ior. f_equal. symmetry. apply Z.mod_small. apply lor_range; auto.
+  - (* xor *) unfold ixor. f_equal. symmetry. apply Z.mod_small. apply lxor_range; auto.
+  - (* shr_s *) unfold ishr_s, unsigned, wrap, modulus. f_equal. rewrite Z.shiftr_div_pow2 by lia. reflexivity.
+  - (* rotl *)
+    pose proof (irotl_range n x y Hn Hx) as R. unfold irotl in *. unfold rs_rotl.
+    rewrite Z.shiftl_mul_pow2, Z.shiftr_div_pow2 by lia. f_equal. unfold wrap, modulus in *.
+    symmetry. apply Z.mod_small. exact R.
+  - (* rotr *)
+    pose proof (irotr_range n x y Hn Hx) as R. unfold irotr in *. unfold rs_rotr.
+    rewrite Z.shiftl_mul_pow2, Z.shiftr_div_pow2 by lia. f_equal. unfold wrap, modulus in *.
+    symmetry. apply Z.mod_small. exact R.
+Qed.
+
+(** ** Unary operators, tests, conversions *)
+Lemma pos_tz_ctz p : pos_tz p = pos_ctz p. Proof. induction p; cbn; auto; try (rewrite IHp; reflexivity). Qed.
+Lemma pos_ones_popcnt p : pos_ones p = pos_popcnt p.
+Proof. induction p; cbn; auto; try (rewrite IHp; reflexivity). Qed.
+
+Lemma as_u32_id x : in_range 32 x -> as_u32 x = x.
+Proof. intros [H0 H1]. unfold as_u32, low32, two32. change (modulus 32) with 4294967296 in H1. apply Z.mod_small; lia. Qed.
+Lemma as_u64_id x : in_range 64 x -> as_u64 x = x.
+Proof. intros [H0 H1]. unfold as_u64, two64. change (modulus 64) with 18446744073709551616 in H1. apply Z.mod_small; lia. Qed.
+
+Lemma sext_signed k v : sext k v = signed k (v mod 2 ^ k).
+Proof. reflexivity. Qed.
+
+Lemma signed_low_bits n k x : 0 <= k <= n -> signed n x mod 2 ^ k = x mod 2 ^ k.
+Proof.
+  intros Hk. unfold signed. destruct (x <? half_modulus n); [reflexivity|].
+  unfold modulus. replace n with (k + (n - k)) at 1 by lia. rewrite Z.pow_add_r by lia.
+  replace (x - 2 ^ k * 2 ^ (n - k)) with (x + (- 2 ^ (n - k)) * 2 ^ k) by ring.
+  apply Z.mod_add. apply Z.pow_nonzero; lia.
+Qed.
+
+Lemma rs_unop32_agrees op x : in_range 32 x -> op <> Extend32S ->
+  app_unop T_i32 op x = Some (rs_unop32 op x mod 2 ^ 32).
+Proof.
+  intros Hx Hop. pose proof (as_u32_id x Hx) as U. pose proof (as_i32_signed x Hx) as S.
+  destruct op; try contradiction; cbn [app_unop rs_unop32 bits]; f_equal; try rewrite U; try rewrite S.
+  - pose proof (iclz_range 32 x ltac:(lia) Hx). symmetry. rewrite Z.mod_small.
+    + unfold iclz, bitlen, rs_leading_zeros. destruct x; lia.
+    + unfold iclz, bitlen, rs_leading_zeros in *. destruct x; lia.
+  - pose proof (ictz_range 32 x ltac:(lia) Hx). symmetry.
+    assert (E : rs_trailing_zeros 32 x = ictz 32 x) by (unfold ictz, rs_trailing_zeros; destruct x; auto; apply pos_tz_ctz).
+    rewrite E. apply Z.mod_small. lia.
+  - pose proof (ipopcnt_range 32 x ltac:(lia) Hx). symmetry.
+    assert (E : rs_count_ones x = ipopcnt 32 x) by (unfold ipopcnt, rs_count_ones; destruct x; auto; apply pos_ones_popcnt).
+    rewrite E. apply Z.mod_small. lia.
+  - unfold iextendM_s, iextend_s, unsigned, wrap, modulus. rewrite sext_signed.
+    rewrite (signed_low_bits 32 8 x) by lia. reflexivity.
+  - unfold iextendM_s, iextend_s, unsigned, wrap, modulus. rewrite sext_signed.
+    rewrite (signed_low_bits 32 16 x) by lia. reflexivity.
+Qed.
+
+Lemma rs_unop64_agrees op x : in_range 64 x ->
+  app_unop T_i64 op x = Some (rs_unop64 op x mod 2 ^ 64).
+Proof.
+  intros Hx. pose proof (as_u64_id x Hx) as U. pose proof (as_i64_signed x Hx) as S.
+  destruct op; cbn [app_unop rs_unop64 bits]; f_equal; try rewrite U; try rewrite S.
+  - pose proof (iclz_range 64 x ltac:(lia) Hx). symmetry. rewrite Z.mod_small.
+    + unfold iclz, bitlen, rs_leading_zeros. destruct x; lia.
+    + unfold iclz, bitlen, rs_leading_zeros in *. destruct x; lia.
+  - pose proof (ictz_range 64 x ltac:(lia) Hx). symmetry.
+    assert (E : rs_trailing_zeros 64 x = ictz 64 x) by (unfold ictz, rs_trailing_zeros; destruct x; auto; apply pos_tz_ctz).
+    rewrite E. apply Z.mod_small. lia.
+  - pose proof (ipopcnt_range 64 x ltac:(lia) Hx). symmetry.
+    assert (E : rs_count_ones x = ipopcnt 64 x) by (unfold ipopcnt, rs_count_ones; destruct x; auto; apply pos_ones_popcnt).
+    rewrite E. apply Z.mod_small. lia.
+  - unfold iextendM_s, iextend_s, unsigned, wrap, modulus. rewrite sext_signed.
+    rewrite (signed_low_bits 64 8 x) by lia. reflexivity.
+  - unfold iextendM_s, iextend_s, unsigned, wrap, modulus. rewrite sext_signed.
+    rewrite (signed_low_bits 64 16 x) by lia. reflexivity.
+  - unfold iextendM_s, iextend_s, unsigned, wrap, modulus. rewrite sext_signed.
+    rewrite (signed_low_bits 64 32 x) by lia. reflexivity.
+Qed.
+
+Lemma rs_eqz_agrees x :
+  (in_range 32 x -> rs_eqz32 x = ieqz 32 x) /\ (in_range 64 x -> rs_eqz64 x = ieqz 64 x).
+Proof.
+  split; intros Hx; unfold rs_eqz32, rs_eqz64, ieqz, bool_to_Z.
+  - rewrite (as_i32_signed x Hx). destruct (Z.eqb_spec x 0) as [->|Hne]; [reflexivity|].
+    destruct (Z.eqb_spec (signed 32 x) 0) as [E|]; [|reflexivity].
+    exfalso. apply Hne. apply (signed_eq0 32 x ltac:(lia) Hx). exact E.
+  - rewrite (as_i64_signed x Hx). destruct (Z.eqb_spec x 0) as [->|Hne]; [reflexivity|].
+    destruct (Z.eqb_spec (signed 64 x) 0) as [E|]; [|reflexivity].
+    exfalso. apply Hne. apply (signed_eq0 64 x ltac:(lia) Hx). exact E.
+Qed.
+
+Lemma rs_cvt_agrees x :
+  (in_range 64 x -> rs_cvt WrapI64 x mod 2 ^ 32 = iwrap 64 32 x)
+  /\ (in_range 32 x -> rs_cvt ExtendI32S x mod 2 ^ 64 = iextend_s 32 64 x)
+  /\ (in_range 32 x -> rs_cvt ExtendI32U x mod 2 ^ 64 = iextend_u 32 64 x).
+Proof.
+  repeat split; intros Hx; cbn [rs_cvt].
+  - rewrite (as_i64_signed x Hx). unfold iwrap, wrap, modulus. apply (signed_low_bits 64 32 x). lia.
+  - rewrite (as_i32_signed x Hx). reflexivity.
+  - rewrite (as_u32_id x Hx). unfold iextend_u. destruct Hx as [H0 H1]. change (modulus 32) with 4294967296 in H1.
+    apply Z.mod_small. lia.
 Qed.
